@@ -137,14 +137,14 @@ def state_unpack(cg, SS, base, R, j):
     return state_unpack(cg, SS, base, R, j - 1)
 """)
 
-defspec("param_unpack", {"cg": "CG", "PS": "Seq[Atom]", "base": "Name", "j": "Int"}, "Seq[Stmt]", """
-def param_unpack(cg, PS, base, j):
+defspec("param_unpack", {"cg": "CG", "PS": "Seq[Atom]", "base": "Name", "KEEP": "Dict[Name,Int]", "j": "Int"}, "Seq[Stmt]", """
+def param_unpack(cg, PS, base, KEEP, j):
     if j <= 0:
         return empty("Seq[Stmt]")
     p = PS[j - 1]
-    if cg._condition(p.name):
-        return param_unpack(cg, PS, base, j - 1) + [Assign(p.symbol, Indexed(base, j - 1), True)]
-    return param_unpack(cg, PS, base, j - 1)
+    if cg._condition(p.name) or p.name in KEEP:
+        return param_unpack(cg, PS, base, KEEP, j - 1) + [Assign(p.symbol, Indexed(base, j - 1), True)]
+    return param_unpack(cg, PS, base, KEEP, j - 1)
 """)
 
 defspec("missing_unpack", {"MV": "Dict[Name,Int]", "j": "Int"}, "Seq[Stmt]", """
@@ -258,10 +258,11 @@ contract(
     comps={0: "state_unpack(self, SS, states.name, remove_unused, j)"}, properties=("C04", "C12"),
 )
 contract(
-    B + "_parameter_assignments", params={"self": "CG", "parameters": "Rec:IndexedBase"}, ret="Seq[Stmt]", requires=["WF(self.ode)"],
+    B + "_parameter_assignments", params={"self": "CG", "parameters": "Rec:IndexedBase", "keep": "Dict[Name,Int]"}, ret="Seq[Stmt]",
+    requires=["WF(self.ode)"], ghost={"q": "Int"},
     where={"PS": "self.ode.parameters"},
-    ensures={"slot_is_position_before_filtering": "result == param_unpack(self, PS, parameters.name, len(PS))"},
-    comps={0: "param_unpack(self, PS, parameters.name, j)"}, properties=("C04", "C12"),
+    ensures={"slot_is_position_before_filtering": "result == param_unpack(self, PS, parameters.name, keep, len(PS))"},
+    comps={0: "param_unpack(self, PS, parameters.name, keep, j)"}, properties=("C04", "C12"),
 )
 contract(
     B + "_missing_variables_assignments", params={"self": "CG"}, ret="Seq[Stmt]",
@@ -436,7 +437,7 @@ contract(
            "P": "self.ode.states + self.ode.parameters", "N0": "in_count(P, values, len(P))"},
     ensures={"requested_names_written_to_their_requested_slot":
              "result == self._format(self.template.method('missing_values', ', '.join(" + _ARGS + "), "
-             "self._state_assignments(F.states, False), self._parameter_assignments(F.parameters), "
+             "self._state_assignments(F.states, False), self._parameter_assignments(F.parameters, values), "
              "mv_pre(P, values, len(P)) + mv_emit(SA, values, N0, len(values), len(SA)), F.return_name, len(values), "
              "self._shape_info(len(values)), 'numpy.zeros(shape)', self._missing_variables_assignments()))"},
     loops={0: {"invariant": {"pre": "values_lst == mv_pre(P, values, k)", "n": "n == in_count(P, values, k)"},
